@@ -480,7 +480,7 @@ Proof. destruct s; simpl; intro; subst; reflexivity. Qed.
 
 (* what a whole Start call computes when nothing is interleaved with it *)
 Lemma start_call_seq c s id :
-  inprog s = [] ->
+  read_before_lock c = false -> inprog s = [] ->
   start_call c s id =
     if use_wcheck c && negb (is_wnone (waiter (get s id))) then Some (s, RRejected)
     else match stored (get s id) with
@@ -493,8 +493,8 @@ Lemma start_call_seq c s id :
              else Some (s, RRejected)
          end.
 Proof.
-  destruct s as [pls nx ip nw]. simpl. intro; subst ip.
-  unfold start_call, step, get, with_inprog, set; simpl. rewrite andb_false_r. simpl.
+  intro Hrb. destruct s as [pls nx ip nw]. simpl. intro; subst ip.
+  unfold start_call, step, get, with_inprog, set; simpl. rewrite Hrb. rewrite !andb_false_r. simpl.
   destruct (lookup pls id) as [sto w ex en] eqn:Hq; simpl.
   destruct (use_wcheck c); destruct w; simpl; rewrite ?Hq; simpl; try reflexivity;
     (destruct sto as [p|]; simpl; rewrite ?Hq; simpl;
@@ -506,7 +506,7 @@ Theorem start_call_after_launch ms s id :
   exists r, start_call (fixed ms) s id = Some (s, r) /\ (r = RRejected \/ r = RNotFound).
 Proof.
   intros R HI Hx. pose proof (inv_reach _ _ R) as [G F L E].
-  rewrite start_call_seq by assumption. simpl.
+  rewrite start_call_seq by (assumption || reflexivity). simpl.
   destruct (negb (is_wnone (waiter (get s id)))) eqn:W.
   - exists RRejected. auto.
   - apply negb_false_iff in W.
@@ -523,7 +523,7 @@ Theorem start_call_stale ms s id p t :
   inprog s = [] -> stored (get s id) = Some p -> pl_submit p = Some t -> t + ms < now s ->
   start_call (fixed ms) s id = Some (s, RRejected).
 Proof.
-  intros HI Hs Ht Hlt. rewrite start_call_seq by assumption. simpl.
+  intros HI Hs Ht Hlt. rewrite start_call_seq by (assumption || reflexivity). simpl.
   destruct (negb (is_wnone (waiter (get s id)))); [reflexivity |].
   rewrite Hs.
   assert (V : validate (fixed ms) (now s) p = false).
@@ -544,7 +544,7 @@ Proof.
   destruct (validate_true _ _ _ V) as (_ & N & _).
   pose proof (good_wnone_notstarted _ _ (G id) W Hs N) as Ex.
   pose proof (good_wnone_noeng _ (G id) W) as En.
-  rewrite start_call_seq by assumption. simpl. rewrite W, Hs, V. simpl.
+  rewrite start_call_seq by (assumption || reflexivity). simpl. rewrite W, Hs, V. simpl.
   eexists. split; [reflexivity |].
   rewrite get_with_inprog, get_set_same. simpl. rewrite Ex, En. auto.
 Qed.
@@ -555,7 +555,7 @@ Qed.
 Theorem start_call_error_unchanged ms s id s' r :
   inprog s = [] -> start_call (fixed ms) s id = Some (s', r) -> r <> ROk -> s' = s /\ (r = RRejected \/ r = RNotFound).
 Proof.
-  intros HI H Hr. rewrite start_call_seq in H by assumption. simpl in H.
+  intros HI H Hr. rewrite start_call_seq in H by (assumption || reflexivity). simpl in H.
   destruct (negb (is_wnone (waiter (get s id)))); [inversion H; subst; auto |].
   destruct (stored (get s id)) as [p|]; [| inversion H; subst; auto].
   destruct (validate (fixed ms) (now s) p); inversion H; subst; auto. contradiction.
